@@ -16,6 +16,7 @@ package c05
 import (
 	"crypto/tls"
 	"encoding/json"
+	"errors"
 	"fmt"
 	"net"
 	"strings"
@@ -35,14 +36,14 @@ const deadAddr = "127.0.0.1:1"
 // hops is one set of scripted listeners (one per worker: activity is attributed by counters).
 type hops struct {
 	origin, proxyA, redirA, redirB *rig.Peer
-	proxyB                         *rig.Peer // TLS
+	proxyB, proxyC                 *rig.Peer // TLS
 	socks                          *rig.Socks5
 	caFile                         string
 	byAddr                         map[string]string // listener address -> name
 }
 
 func (h *hops) peers() map[string]*rig.Peer {
-	return map[string]*rig.Peer{"origin": h.origin, "proxyA": h.proxyA, "redirA": h.redirA, "redirB": h.redirB, "proxyB": h.proxyB, "socks": h.socks.Peer}
+	return map[string]*rig.Peer{"origin": h.origin, "proxyA": h.proxyA, "redirA": h.redirA, "redirB": h.redirB, "proxyB": h.proxyB, "proxyC": h.proxyC, "socks": h.socks.Peer}
 }
 
 func (h *hops) close() {
@@ -71,11 +72,15 @@ func newHops(ctx *core.Ctx, n int) (*hops, error) {
 	if err != nil {
 		return nil, err
 	}
-	leaf, err := ca.ValidLeaf("proxyb.test")
+	// one certificate for every name an HTTPS upstream has in a case (the family members of gen.go included)
+	leaf, err := ca.ValidLeaf(tlsUpstreamNames...)
 	if err != nil {
 		return nil, err
 	}
 	if h.proxyB, err = rig.NewTLSForwardProxy("proxyB", &tls.Config{Certificates: []tls.Certificate{leaf}}, resolve); err != nil {
+		return nil, err
+	}
+	if h.proxyC, err = rig.NewTLSForwardProxy("proxyC", &tls.Config{Certificates: []tls.Certificate{leaf}}, resolve); err != nil {
 		return nil, err
 	}
 	if h.socks, err = rig.NewSocks5("socks", resolve); err != nil {
@@ -95,6 +100,19 @@ func (h *hops) reset() {
 		p.Reset()
 	}
 	h.socks.ResetRequests()
+}
+
+// readTimedOut: some scripted proxy gave up waiting for the first bytes of a connection.
+func (h *hops) readTimedOut() bool {
+	for _, p := range h.peers() {
+		for _, ex := range p.Log() {
+			var ne net.Error
+			if ex.Req == nil && ex.Err != nil && errors.As(ex.Err, &ne) && ne.Timeout() {
+				return true
+			}
+		}
+	}
+	return false
 }
 
 func (h *hops) accepts() map[string]int64 {
@@ -159,6 +177,8 @@ type rcase struct {
 	Hosts   string   `json:"hosts,omitempty"`
 	Env     string   `json:"env,omitempty"`
 	Targets []target `json:"targets"`
+	// Family: label of the upstream family the configuration selects among ("" = none), see genFamilyCase
+	Family string `json:"family,omitempty"`
 	// genLabels: histogram labels of the rule-list generator for a real --direct-domains list (not replayed)
 	genLabels []string
 }
@@ -273,6 +293,14 @@ func runCase(ctx *core.Ctx, h *hops, rc *rcase) {
 		}
 		fresh()
 		ob := sess.exchange(&t, fresh)
+		if ob.Status >= 500 && h.readTimedOut() {
+			// a scripted proxy gives the head of a connection one second to arrive (so that a peer speaking another
+			// protocol cannot stall the scenario); on a machine under load the proxy under test can be slower than
+			// that. The observation is taken once more: a head that is really never sent is missing again.
+			ctx.Count("rig/listener-read-timeout-observation-repeated")
+			fresh()
+			ob = sess.exchange(&t, fresh)
+		}
 		// let late accepts land: every live dial accepted and the counters stable
 		deadline := time.Now().Add(time.Second)
 		stable, last := 0, int64(-1)
@@ -314,6 +342,9 @@ func runCase(ctx *core.Ctx, h *hops, rc *rcase) {
 			ob.SocksTargets = append(ob.SocksTargets, sr.Target)
 		}
 		ctx.Count(fmt.Sprintf("seq/position=%d", min(i, 8)))
+		if rc.Family != "" {
+			countFamily(ctx, rc, answers, i)
+		}
 		evaluate(ctx, h, &fc, one, &t, ob, &answers[i])
 		// the same request served twice by one instance is routed the same way both times
 		cur := &routed{key: fmt.Sprintf("%s|%s|%v|%s", t.Kind, t.Authority, t.Absolute, t.requestURI()), status: ob.Status, dials: ob.Dials, err: ob.Err}
@@ -329,6 +360,50 @@ func runCase(ctx *core.Ctx, h *hops, rc *rcase) {
 			break
 		}
 		seen = append(seen, cur)
+	}
+}
+
+// countFamily: histogram of what the i-th request of a family case meets - a hop that differs from an earlier hop of
+// the sequence only in its port, only in its host, only in its scheme, or only in the spelling of its host.
+func countFamily(ctx *core.Ctx, rc *rcase, answers []reqmodel.SeqAnswer, i int) {
+	cur := answers[i].Route
+	ctx.Count("family/" + rc.Family)
+	if cur.Kind != "proxy" {
+		return
+	}
+	ch, cp, err := net.SplitHostPort(cur.Addr)
+	if err != nil {
+		return
+	}
+	kind := rc.Targets[i].Kind
+	seen := map[string]bool{}
+	for j := 0; j < i; j++ {
+		prev := answers[j].Route
+		if prev.Kind != "proxy" {
+			continue
+		}
+		ph, pp, err := net.SplitHostPort(prev.Addr)
+		if err != nil || prev.Addr == cur.Addr && prev.Proxy == cur.Proxy {
+			continue
+		}
+		rel := ""
+		switch {
+		case prev.Addr == cur.Addr:
+			rel = "same-address-other-scheme"
+		case ph == ch && pp != cp:
+			rel = "same-host-other-port"
+		case ph != ch && strings.EqualFold(strings.TrimSuffix(ph, "."), strings.TrimSuffix(ch, ".")):
+			rel = "other-spelling-of-host"
+		case pp == cp:
+			rel = "same-port-other-host"
+		default:
+			continue
+		}
+		rel += "/" + kind + "-after-" + rc.Targets[j].Kind
+		if !seen[rel] {
+			seen[rel] = true
+			ctx.Count("family/sibling-visited-before/" + rel)
+		}
 	}
 }
 
@@ -522,6 +597,9 @@ func Run(ctx *core.Ctx) {
 		"44% built around an unscoped flag group in front of another rule or a letter one rule has in upper case and another case-folded), most requests of such a sequence going to hosts derived " +
 		"from the rules (example matches, case variants, near misses), judged with one regexp per rule; the matcher the flag values are read into is also compared at API level on all derived subjects; " +
 		"the model is one instance folded over the whole sequence (C05 routeseq), compared position by position; " +
+		"a quarter of the configurations select among 2-4 members of an UPSTREAM FAMILY (one host several ports - plain, TLS, SOCKS5 -, one port several hosts, one host:port under both schemes, " +
+		"case / trailing-dot / IP-literal spellings of one address; PAC host table, URL rules or custom function; each host:port led to a scripted proxy of its own) and their sequence visits the members " +
+		"in every order (plain, CONNECT, intercepted): each request is dialled to, accepted by and spoken to in the protocol of exactly the proxy selected for it; " +
 		"the same in child processes whose ENVIRONMENT names recording sink proxies (HTTP_PROXY / HTTPS_PROXY / ALL_PROXY / NO_PROXY in upper, lower and mixed case, " +
 		"NO_PROXY naming a target or not) with the no-upstream class over-represented: the sinks must never be dialled, the model takes the environment as an input; " +
 		"half of a child's cases construct the instance on a GENERATED HOSTS FILE (mixed-case loopback aliases, other records) and aim at its names in several letter cases; " +
